@@ -162,7 +162,7 @@ def main(ck):
             for b in ALPHA:
                 cases.append({"hex": (a + b" " + b).hex(), "mode": "plain", "origin": "alpha2", "mut": "-", "run": False})
         trip = [(a, b, c) for a in ALPHA for b in ALPHA for c in ALPHA]
-        for a, b, c in (trip if not quick else rng.sample(trip, 2500)):
+        for a, b, c in (trip if not quick else rng.sample(trip, 1500)):
             cases.append({"hex": (a + b" " + b + b" " + c).hex(), "mode": "plain", "origin": "alpha3", "mut": "-", "run": False})
         # tails that end a source in the middle of a multi-byte look-ahead or of an opening construct
         tails = [b"\xe3", b"\xe3\x80", b"\xe3\x80\x80", b"$", b"\\", b"'", b'"', b"`", b"/", b"/*", b"/* x *", b"//", b"<", b"<<", b"<<<",
@@ -247,9 +247,9 @@ def main(ck):
                 ck.violation("accepted-crash:%s:%s" % (panic_class(o.get("rpanic")), site), rep)
 
     # ---- tie: lexer model vs real lexer on (a size-limited part of) this distribution
-    tie = [i for i, c in enumerate(cases) if len(c["hex"]) <= (1400 if quick else 8000) and not outs[i].get("dead")]
-    if quick and len(tie) > 2000:
-        tie = sorted(rng.sample(tie, 2000))
+    tie = [i for i, c in enumerate(cases) if len(c["hex"]) <= (1000 if quick else 8000) and not outs[i].get("dead")]
+    if quick and len(tie) > 1200:
+        tie = sorted(rng.sample(tie, 1200))
     order = sorted(tie, key=lambda i: -len(cases[i]["hex"]))
     nshard = 16
     shards = [[] for _ in range(nshard)]
